@@ -378,14 +378,14 @@ def subchecks():
             kind="machine",
             run_case=run_case_alias,
             machine=_machine,
-            examples={"quick": 4000, "thorough": 100000},
+            examples={"quick": 4000, "thorough": 300000},
             steps={"quick": 40, "thorough": 70},
         ),
         SubCheck(
             name="search-events",
             run_case=run_search_case,
             strategy=lambda tier: gen.scenario(tier),
-            examples={"quick": 1500, "thorough": 20000},
+            examples={"quick": 1500, "thorough": 80000},
             case_timeout=20.0,
         ),
     ]
